@@ -35,11 +35,11 @@ import (
 )
 
 type c17case struct {
-	BackoffStop string // none after-fail mid-delay on-tick at-expiry
-	InFlight    int    // -1: no handler in flight; n>=0: handler parked with n tasks behind it
-	How         string // Shutdown QueuesStop OperatorStop
-	InformerPoll bool  // a namespace appears right before the stop (dynamic informer inside its sync poll)
-	Rep         int
+	BackoffStop  string // none after-fail mid-delay on-tick at-expiry
+	InFlight     int    // -1: no handler in flight; n>=0: handler parked with n tasks behind it
+	How          string // Shutdown QueuesStop OperatorStop
+	InformerPoll bool   // a namespace appears right before the stop (dynamic informer inside its sync poll)
+	Rep          int
 }
 
 func (c c17case) String() string {
